@@ -1,7 +1,7 @@
 SPECIFICATION Spec
 CONSTANTS
-  Files = 1
-  StickyGrid = FALSE
+  Files = 2
+  StickyGrid = TRUE
   Truthiness = FALSE
   As = {1, 2, 3, 4, 5, 7, 25}
   Es = {1, 2, 3, 4}
